@@ -350,13 +350,18 @@ class Frame:
 
     # -- the Welford-style append-builder -------------------------------------
     def try_builder_loop(self, st: ast.For) -> bool:
-        """for [i,] xi in [enumerate(]x[1:][)]: L.append(f(...)) -- one append per
-        list per iteration; element k of each list depends on x[0..k] only."""
+        """for [i,] xi in [enumerate(]x[1:][, start=k)]:  <local temporaries>;  L.append(f(...))
+        -- at most one append per list per iteration; element k of each list depends on x[0..k] only when the appended
+        value is built from the loop element, the index, constants and the entries built so far."""
         it = st.iter
         idx_name = None
-        if isinstance(it, ast.Call) and norm(it.func) == "enumerate" and len(it.args) == 1:
+        if isinstance(it, ast.Call) and norm(it.func) == "enumerate" and len(it.args) >= 1:
+            ok_kw = all(k.arg == "start" and _const_int(k.value) is not None for k in it.keywords) and len(it.args) <= 2 \
+                and (len(it.args) == 1 or _const_int(it.args[1]) is not None)
+            if not ok_kw:
+                return False
             it = it.args[0]
-            if not (isinstance(st.target, ast.Tuple) and len(st.target.elts) == 2):
+            if not (isinstance(st.target, ast.Tuple) and len(st.target.elts) == 2 and isinstance(st.target.elts[0], ast.Name)):
                 return False
             idx_name, elt = st.target.elts[0].id, st.target.elts[1]
         else:
@@ -373,40 +378,48 @@ class Frame:
             return False
         if st.orelse:
             return False
-        # lists under construction: initialised with exactly one element whose
-        # dependence is at most x[0]
-        builders = {}
+        # which lists are built: initialised (before the loop) with exactly one element
+        builders = []
+        temps = []
         for s in st.body:
-            if not (isinstance(s, ast.Expr) and isinstance(s.value, ast.Call)
-                    and isinstance(s.value.func, ast.Attribute) and s.value.func.attr == "append"
-                    and isinstance(s.value.func.value, ast.Name) and len(s.value.args) == 1):
+            if isinstance(s, ast.Expr) and isinstance(s.value, ast.Call) and isinstance(s.value.func, ast.Attribute) \
+                    and s.value.func.attr == "append" and isinstance(s.value.func.value, ast.Name) and len(s.value.args) == 1:
+                lname = s.value.func.value.id
+                if lname in builders:
+                    return False  # two appends to the same list in one iteration
+                init = self.defs.get(lname)
+                if not (isinstance(init, ast.List) and len(init.elts) == 1):
+                    return False
+                builders.append(lname)
+            elif isinstance(s, ast.Assign) and len(s.targets) == 1 and isinstance(s.targets[0], ast.Name):
+                temps.append(s.targets[0].id)
+            else:
                 return False
-            lname = s.value.func.value.id
-            if lname in builders:
-                return False  # two appends to the same list in one iteration
-            init = self.defs.get(lname)
-            if not (isinstance(init, ast.List) and len(init.elts) == 1):
-                return False
-            builders[lname] = s.value.args[0]
-        # abstract evaluation of the appended expressions: the loop element, the
-        # index and the entries built so far are "already seen" (constants w.r.t.
-        # look-ahead); anything else that depends on the data is a look-ahead.
+        if not builders:
+            return False
         saved = dict(self.env)
         worst = {}
         try:
             self.env[elt.id] = CONST
             if idx_name:
                 self.env[idx_name] = CONST
-            # at iteration 0 every list holds its single initial element; an append
-            # executed earlier in the same iteration adds one (lengths only grow)
+            # at iteration 0 every list holds its single initial element; an append executed earlier in the same
+            # iteration adds one (lengths only grow)
             for lname in builders:
                 self.env[lname] = Arr(NINF, 0)
-            for lname, expr in builders.items():  # body order
-                v = self.ev(expr)
-                if v is TOP:
-                    return False
-                worst[lname] = v
-                self.env[lname] = Arr(NINF, 1)
+            for s in st.body:  # body order
+                if isinstance(s, ast.Assign):
+                    v = self.ev(s.value)
+                    if v is TOP:
+                        return False
+                    self.env[s.targets[0].id] = v
+                else:
+                    lname = s.value.func.value.id
+                    v = self.ev(s.value.args[0])
+                    if v is TOP:
+                        return False
+                    worst[lname] = v
+                    self.env[lname] = Arr(NINF, 1)
         finally:
             self.env = saved
         for lname in builders:
@@ -425,6 +438,9 @@ class Frame:
             else:
                 why = getattr(v, "why", "") or "appended value depends on more than the draws seen so far"
                 self.env[lname] = Arr(INF, 0, False, None, "append-builder looks ahead: " + why)
+        # loop temporaries and loop variables hold values of the last iteration afterwards
+        for nm in temps + [elt.id] + ([idx_name] if idx_name else []):
+            self.env[nm] = WHOLE("value of a loop variable after the loop")
         return True
 
     # -- expressions ----------------------------------------------------------
